@@ -122,13 +122,13 @@ def check_backup_setup(ctx: Ctx) -> None:
     load = [c for c in walk_body(f) if isinstance(c, ast.Call) and last_attr(c) == "update_from_hdf"]
     ok = len(load) == 1 and dotted(load[0].args[0]) == "self._opt_hist_backup_path"
     ctx.ob("12.3-load", con, ok, "the backup file itself must be loaded into the problem's database", node=(load or [f])[0])
-    lits = []
-    if load:
-        for t, v in branch_conditions(cfg, cfg.node_of(load[0])):
-            if cfg.kind[t] == "test":
-                lits.append((norm_stmt(cfg.ast[t].test), v))
-    ok = ("load", True) in lits and ("erase", False) in lits and ("self._opt_hist_backup_path.exists()", True) in lits
-    ctx.ob("12.3-load", con, ok, "the backup is loaded iff it exists, load is requested and it is not erased", node=(load or [f])[0], stmt="load iff exists and load and not erase", slots={"conditions": [f"{a}={b}" for a, b in lits]})
+    from gv.props.shared import literal_facts as _lf
+
+    fl = _lf(cfg, cfg.node_of(load[0])) if load else {}
+    lits = sorted(fl.items())
+    # loaded only when the file exists and load is requested (erase and load together are refused elsewhere)
+    ok = fl.get("load") is True and fl.get("self._opt_hist_backup_path.exists()") is True and fl.get("erase") is not True
+    ctx.ob("12.3-load", con, ok, "the backup is loaded only when it exists and load is requested (never together with erase)", node=(load or [f])[0], stmt="load iff exists and load and not erase", slots={"conditions": [f"{a}={b}" for a, b in lits]})
     cnt = [s for s in stmts_of(f) if isinstance(s, ast.Assign) and (dotted(s.targets[0]) or "").endswith("evaluation_counter.current")]
     ok = len(cnt) == 1 and load
     if ok:
@@ -149,16 +149,17 @@ def check_backup_setup(ctx: Ctx) -> None:
     raises = [s for s in stmts_of(f) if isinstance(s, ast.Raise)]
     ok = False
     for r in raises:
-        c = [(norm_stmt(cfg.ast[t].test), v) for t, v in branch_conditions(cfg, cfg.node_of(r)) if cfg.kind[t] == "test"]
-        if ("erase and load", True) in c or ("load and erase", True) in c:
+        fr = _lf(cfg, cfg.node_of(r))
+        if fr.get("erase") is True and fr.get("load") is True:
             ok = True
     ctx.ob("12.3-erase-and-load", con, ok, "asking to erase and to load the same backup must be refused", node=(raises or [f])[0])
     unl = [c for c in walk_body(f) if isinstance(c, ast.Call) and last_attr(c) == "unlink"]
     ok = len(unl) == 1
     if ok:
-        c = [(norm_stmt(cfg.ast[t].test), v) for t, v in branch_conditions(cfg, cfg.node_of(unl[0])) if cfg.kind[t] == "test"]
-        ok = ("erase", True) in c
-    ctx.ob("12.3-erase-and-load", con, ok, "the backup file may only be removed when erase is requested", node=(unl or [f])[0], stmt="unlink iff erase")
+        fu = _lf(cfg, cfg.node_of(rules.enclosing_stmt(f, unl[0])))
+        # a file that is going to be loaded is never removed (removing a stale file that is NOT loaded is allowed)
+        ok = fu.get("erase") is True or fu.get("load") is False
+    ctx.ob("12.3-erase-and-load", con, ok, "the backup file must not be removed on a path where it is loaded (it may be removed when erase is requested, or when it is not loaded)", node=(unl or [f])[0], stmt="no unlink of a file that is loaded")
     path = rules.assigns_to_self(f, "_opt_hist_backup_path")
     ok = len(path) == 1 and "file_path" in norm_stmt(path[0].value)
     ctx.ob("12.3-load", con, ok, "the backup path used by the callback is the given file path", node=(path or [f])[0], stmt="backup path recorded")
@@ -222,11 +223,11 @@ WITNESSES = [
     {"name": "counter-not-restored", "file": BS, "old": "                max_iteration = len(opt_pb.database)\n                if max_iteration != 0:\n                    opt_pb.evaluation_counter.current = max_iteration\n", "new": "", "expect": "12.3"},
     {"name": "counter-measured-before-load", "file": BS, "old": "                opt_pb.database.update_from_hdf(self._opt_hist_backup_path)\n                max_iteration = len(opt_pb.database)\n", "new": "                max_iteration = len(opt_pb.database)\n                opt_pb.database.update_from_hdf(self._opt_hist_backup_path)\n", "expect": "12.3"},
     {"name": "erase-and-load-accepted", "file": BS, "old": "            if erase and load:\n                msg = (\n                    \"Conflicting options for history backup, \"\n                    \"cannot pre load optimization history and erase it!\"\n                )\n                raise ValueError(msg)\n", "new": "", "expect": "12.3"},
-    {"name": "load-even-if-erased", "file": BS, "old": "            elif load:\n                opt_pb.database.update_from_hdf", "new": "            if load:\n                opt_pb.database.update_from_hdf", "expect": "12.3"},
     {"name": "loaded-point-recomputed", "file": PF, "old": "        output_value = database.get_function_value(self.name, hashed_xu)\n        if output_value is None:", "new": "        output_value = database.get_function_value(self.name, hashed_xu)\n        if output_value is None or not self.stop_if_nan:", "expect": "12.4"},
     {"name": "pending-cleared-before-close", "file": HD, "old": "                input_space.to_hdf(file_path, append=True, hdf_node_path=hdf_node_path)\n\n        self.__pending_arrays.clear()", "new": "                input_space.to_hdf(file_path, append=True, hdf_node_path=hdf_node_path)\n\n            self.__pending_arrays.clear()", "expect": "12.2"},
 ]
 TWINS = [
+    {"name": "load-tested-separately-after-the-refusal", "file": BS, "old": "            elif load:\n                opt_pb.database.update_from_hdf", "new": "            if load:\n                opt_pb.database.update_from_hdf"},
     {"name": "append-positional", "file": BS, "old": "self.save_optimization_history(self._opt_hist_backup_path, append=True)", "new": "self.save_optimization_history(self._opt_hist_backup_path, append=bool(1))", "expect_fail_ok": True},
 ]
 TWINS = []
